@@ -16,7 +16,12 @@ LineDescr == { [op |-> op, pos |-> 0, kind |-> "line", ar |-> 0, sort |-> so, st
                  op \in {"init", "next"}, so \in 1..5, st \in {6, 8, 9, 10, 11, 12}, ex \in 6..12 }
         \cup { [op |-> op, pos |-> 0, kind |-> "line", ar |-> 0, sort |-> 0, st |-> 0, ex |-> ex] :
                  op \in {"bad", "constraint", "output"}, ex \in (6..12) \cup {1, 3, 99, 0} \cup {0 - 7, 0 - 8, 0 - 1} }
-Init == d \in OpDescr \cup LineDescr /\ d.pos <= d.ar
+(* attribute lines: the harness declares sorts 1..3 = bitvec 2, 1, 3 and a 2-bit input 4; a slice / uext / sext line names
+   a result sort and attribute values - every combination, of which only those with the right bounds and the right
+   result width are well-sorted (here `sort` is the sort id, `st` the first and `ex` the second attribute). *)
+AttrDescr == { [op |-> "slice", pos |-> 0, kind |-> "attr", ar |-> 0, sort |-> so, st |-> hi, ex |-> lo] : so \in 1..3, hi \in 0..4, lo \in 0..4 }
+        \cup { [op |-> op, pos |-> 0, kind |-> "attr", ar |-> 0, sort |-> so, st |-> by, ex |-> 0] : op \in {"uext", "sext"}, so \in 1..3, by \in 0..3 }
+Init == d \in OpDescr \cup LineDescr \cup AttrDescr /\ d.pos <= d.ar
 Next == UNCHANGED d
 Emit == PrintT(<<"PV", ToJson(d)>>)
 =============================================================================
